@@ -55,6 +55,18 @@ func genPipeline(t *sim.Tape, c pipelineCfg) []*wl.Req {
 		}
 		reqs = append(reqs, g.Next(i, c.Ill, c.Unk))
 	}
+	if t.Draw(256, "wide") == 255 { // 0 stays the cheap choice
+		// a variadic command with element counts around 2^16 somewhere in the pipeline (before a QUIT)
+		at := t.Draw(len(reqs)+1, "wideat")
+		if c.QuitAt >= 0 && at > c.QuitAt {
+			at = c.QuitAt
+		}
+		w := wl.WideRequest(at, []int{65535, 65536, 65537, 70001}[t.Draw(4, "width")])
+		reqs = append(reqs[:at], append([]*wl.Req{w}, reqs[at:]...)...)
+		for i, r := range reqs {
+			r.Idx = i
+		}
+	}
 	return reqs
 }
 
@@ -70,6 +82,11 @@ func runC03(t *testing.T, tape *sim.Tape, tier string) *Outcome {
 	c := newConnRun(tape, o)
 	c.chunkMode = cfg.Chunk
 	c.setReqs(reqs)
+	if len(c.stream) > 100000 && c.chunkMode != 0 {
+		// a request of several hundred KB is delivered in a few large pieces, not byte by byte
+		c.chunkMode = 0
+		o.stat("wide_requests", 1)
+	}
 	injectedReq := map[int]bool{}
 	c.D.Result = func(call *wl.Call) (*resp.Value, error) {
 		if call.Seq < len(inject) && inject[call.Seq] {
